@@ -492,6 +492,13 @@ def s_paired(S):
 
 # --------------------------------------------------------------------------- C15: numeric values of other Python types
 
+def _num(x):
+    try:
+        return float(x)
+    except (TypeError, ValueError):
+        return None          # unset / not a number: reported as a mismatch, not a crash
+
+
 @standin('density-diameter-histories-with-numpy-valued-assignments', props=['C15'])
 def s_valuekinds(S):
     """The contracts quantify over real numbers; what the *kind* of number object does (a 0-d array is mutable, a numpy
@@ -526,17 +533,17 @@ def s_valuekinds(S):
             chk = []
             for t in types:
                 if t in ref_r:
-                    chk.append(('rho[%s]' % t, float(rho[t]), ref_r[t]))
-                    chk.append(('d[%s]' % t, float(dia[t]), ref_d[t]))
-                    chk.append(('volume[%s]' % t, float(dia.volume[t]), np.pi * ref_d[t] ** 3 / 6))
+                    chk.append(('rho[%s]' % t, _num(rho[t]), ref_r[t]))
+                    chk.append(('d[%s]' % t, _num(dia[t]), ref_d[t]))
+                    chk.append(('volume[%s]' % t, _num(dia.volume[t]), np.pi * ref_d[t] ** 3 / 6))
             chk.append(('total', float(rho.total), sum(ref_r.values())))
             for a, b in itertools.product(ref_r, repeat=2):
                 chk.append(('pair[%s,%s]' % (a, b), float(rho.pair[a, b][0]), ref_r[a] * ref_r[b]))
                 chk.append(('site[%s,%s]' % (a, b), float(rho.site[a, b][0]), ref_r[a] if a == b else ref_r[a] + ref_r[b]))
-                chk.append(('sigma[%s,%s]' % (a, b), float(dia.sigma[a, b]), (ref_d[a] + ref_d[b]) / 2))
+                chk.append(('sigma[%s,%s]' % (a, b), _num(dia.sigma[a, b]), (ref_d[a] + ref_d[b]) / 2))
             for o, v0 in held:
                 chk.append(("the caller's own value object", float(o), v0))
-            bad = [c for c in chk if not abs(c[1] - c[2]) <= 1e-12 * max(1.0, abs(c[2]))]
+            bad = [c for c in chk if c[1] is None or not abs(c[1] - c[2]) <= 1e-12 * max(1.0, abs(c[2]))]
             if bad:
                 ok, where = False, '%s = %r, expected %r after step %d (key %r)' % (bad[0][0], bad[0][1], bad[0][2], step, key)
                 break
